@@ -1,7 +1,9 @@
 #!/usr/bin/env python3
 """seedeval.py <ID> <N> [tier]: validates an independently produced breaking change
-(/tmp/seed_out/<ID>/patchN.diff + demo) in a scratch worktree, then applies it to
-/repo, runs ./vcheck <ID> <tier>, and undoes it. Prints a JSON record."""
+(/tmp/seed_out/<ID>/patchN.diff + demo) in a scratch worktree of /repo's HEAD (existing tests, demonstration with and without
+the change), then runs ./vcheck <ID> <tier> against that worktree with the change
+applied (VERIF_REPO=<worktree>; /repo itself is never touched) and removes the
+worktree. Prints a JSON record."""
 import json, os, subprocess, sys, shutil, time, glob
 
 ENV = dict(os.environ, GOFLAGS="-mod=mod", GOPROXY="off", GOSUMDB="off", GOTOOLCHAIN="local")
@@ -60,24 +62,17 @@ def main():
                 ok = False
                 rec["suite_output"] = out[-400:]
         rec["tests_pass"] = ok
-    finally:
-        sh("git -C /repo worktree remove --force %s" % wt)
-        shutil.rmtree(wt, ignore_errors=True)
-    # now the check
-    rc, out = sh("git -C /repo apply %s" % patch)
-    if rc != 0:
-        rec["error"] = "cannot apply to /repo: " + out[-200:]
-        print(json.dumps(rec))
-        return
-    try:
+        # now the check, against the scratch worktree with the change applied (/repo is never touched)
+        alt = "/tmp/verif_alt_%s_%s" % (pid, n)
         t0 = time.time()
-        rc, out = sh("./vcheck %s %s" % (pid, tier), cwd="/verif", timeout=7200)
+        rc, out = sh("VERIF_REPO=%s VERIF_ALT_OUT=%s ./vcheck %s %s" % (wt, alt, pid, tier), cwd="/verif", timeout=7200)
         rec["check_exit"] = rc
         rec["check_wall_s"] = round(time.time() - t0, 1)
         rec["check_output"] = "\n".join(l for l in out.splitlines() if l.startswith(("VIOLATION", "  what", "OK", "INCONCLUSIVE", "  reason", "KNOWN")))[:1500]
+        shutil.rmtree(alt, ignore_errors=True)
     finally:
-        sh("git -C /repo checkout -- .")
-        sh("git -C /repo clean -fdq lib compiler")
+        sh("git -C /repo worktree remove --force %s" % wt)
+        shutil.rmtree(wt, ignore_errors=True)
     print(json.dumps(rec))
 
 
